@@ -3,7 +3,7 @@ Script generation and result grouping only; the contracts are judged by TLC (spe
 import json, os, re, subprocess, shutil, tempfile, random, concurrent.futures as cf
 import vlib, rrgen
 
-WRAP = '-Wl,--wrap=posix_spawn,--wrap=getpwuid,--wrap=getpwnam,--wrap=openat,--wrap=write,--wrap=close,--wrap=renameat,--wrap=unlinkat,--wrap=pipe'
+WRAP = '-Wl,--wrap=posix_spawn,--wrap=getpwuid,--wrap=getpwnam,--wrap=openat,--wrap=write,--wrap=close,--wrap=renameat,--wrap=unlinkat,--wrap=pipe,--wrap=waitpid'
 
 
 def build_driver(B):
@@ -354,12 +354,19 @@ def chk_history(rnd, users=(1000, 1001), uids=('a', 'b', 'c', 'd'), nreq=5, fat=
                 items.append(it)
             metas[len(cmds)] = items; cmds.append(areq(rnd, p, request(items)))
         else:
-            items = [{'kind': 'cancel', 'uid': rnd.choice(uids), 'peer': p}]
+            # one to three UIDs per cancel request (as `echsq cancel A B C` sends them), some of them not in the queue: the request is
+            # answered item by item, and what succeeded has to reach the queue file whatever the other items came to
+            items = [{'kind': 'cancel', 'uid': rnd.choice(list(uids) + ['nosuch']), 'peer': p} for _ in range(rnd.choice([1, 1, 2, 3]))]
             metas[len(cmds)] = items; cmds.append(areq(rnd, p, request(items, 'CANCEL')))
     for _ in range(nreq): req()
     cmds.append('K')
     for _ in range(rnd.randint(0, 3)): req()
     if rnd.random() < 0.5: cmds.append('K')
     for _ in range(rnd.randint(0, 2)): req()
+    if rnd.random() < 0.35:
+        # the last thing a user does: a request whose first item can succeed and whose last item fails
+        p = rnd.choice(users)
+        items = [{'kind': 'cancel', 'uid': rnd.choice(uids), 'peer': p}, {'kind': 'cancel', 'uid': 'nosuch', 'peer': p}]
+        metas[len(cmds)] = items; cmds.append('A\t%d\t%s' % (p, rrgen.esc(request(items, 'CANCEL'))))
     cmds.append('S')
     return cmds, metas
